@@ -178,6 +178,34 @@ def run(chk, facts, tier, only=None):
             if cond.get("k") == "bin" and cond.get("op") in ("Ge", "Gt") and "len" in str(expr_path(unwrap_cast(cond["b"])) or "") and is_err_body(n["t"]):
                 ok = cond["op"] == "Ge"
         chk.expect(ok, "index-in-range", "IndexType::to_type must reject a table index >= the table length (`v >= len` ⇒ error)")
+        # replace_empty turns definitions without values into `empty`: only a record with a vacuous field (a cycle through records and
+        # names) has no values; a variant / opt / vec always has some (spec: the replacement concerns records only)
+        ie = c.fn(r"types::type_env::TypeEnv::is_empty$")
+        chk.analysed(ie["key"])
+        im = the_match(ie, r"TypeInner$", 2)
+        heads_ = sorted({hd[0][len(TI):] if isinstance(hd[0], str) and hd[0].startswith(TI) else str(hd[0]) for r_ in arm_rows(im) for hd in r_["heads"]})
+        chk.expect(heads_ == ["Record", "Var", "_"], "replace_empty:records-only",
+                   f"TypeEnv::is_empty decides emptiness by cases {heads_}; only Record (some field's definition is empty) and Var (alias) may lead "
+                   f"to `true`, everything else is inhabited — a variant or option declared empty would make accepted messages undecodable",
+                   where=f"{ie['span']['file']}:{ie['span']['lo']}", ok_detail=str(heads_))
+        # check_subtype: Ok only through the subtype check itself (no cached / shortcut acceptance keyed by less than both types)
+        cs = c.body(r"candid::de::Deserializer::<'de>::check_subtype$")
+        chk.analysed(cs.key)
+        from facts import term_callee as _tc
+        dom = cs.dominators()
+        sub_blocks = [bi for bi, t_, cal in cs.call_sites() if cal and cal.endswith("subtype::subtype_with_config")]
+        ok_exits = []
+        for bi, blk in enumerate(cs.blocks):
+            if blk.get("c"):
+                continue
+            for st in blk["s"]:
+                if st["k"] == "assign" and st["r"].get("k") == "agg" and st["r"].get("variant") == "Ok" and not st["p"].get("p") and st["p"]["l"] == 0:
+                    ok_exits.append(bi)
+        undom = [bi for bi in ok_exits if bi in dom and not any(sb in dom[bi] for sb in sub_blocks)]
+        chk.expect(bool(sub_blocks) and bool(ok_exits) and not undom, "check_subtype:ok-only-through-the-check",
+                   f"Deserializer::check_subtype can return Ok without having called subtype_with_config on this (wire, expected) pair "
+                   f"(Ok exits in MIR blocks {undom}): a shortcut keyed by the wire type alone accepts the same wire type at an expected type it is "
+                   f"not a subtype of", where=f"{cs.span['file']}:{cs.span['lo']}", ok_detail="every Ok exit is dominated by the subtype check")
         # service methods must be function types
         h = c.fn(r"binary_parser::Table::to_env$")
         # inside the loop over the methods of a service entry: a test that mentions TypeInner::Func and an error return
